@@ -98,6 +98,7 @@ def all_payloads(tier, seed):
 def cases(tier, seed, i, n):
     def allcases():
         yield dict(kind='dfa')
+        yield gen.mark('validator reachable states x 256 next bytes (+ every 2-call split of every witness)')
         rnd = random.Random(seed * 131 + 9)
         for pi, p in enumerate(all_payloads(tier, seed)):
             L = len(p)
@@ -200,7 +201,6 @@ def run_dfa(case, acc):
     if len(witnesses) != len(refutf8.LIVE_STATES):
         acc.violation('utf8-dfa-state-count', 'reachable live states %d != reference %d' % (
             len(witnesses), len(refutf8.LIVE_STATES)), dict(kind='dfa'), dict(witnesses=witnesses))
-    acc.exhaustive_done['validator reachable states x 256 next bytes'] = True
     acc.sample(dict(dfa_witnesses={str(k): v for k, v in witnesses.items()}))
 
 
